@@ -48,8 +48,8 @@ theorem create_refuses_no_or_double_content (i : CreateInfo)
 /-- update: the next update commitment must not be the commitment of the key that signs this
     request (key reuse) -/
 theorem update_refuses_reused_key (i : UpdateInfo) (k : Jwk) (hk : i.updateKey = some k)
-    (h : Hashing.commitment H k.toJson i.code = some i.updateCommitment) : newUpdateRequest H i = none := by
-  unfold newUpdateRequest
+    (h : Hashing.commitment H k.toJson i.code = some i.updateCommitment) : newUpdateRequestCore H i = none := by
+  unfold newUpdateRequestCore
   split
   · rfl
   · cases hs : i.signer with
@@ -64,8 +64,8 @@ theorem update_refuses_reused_key (i : UpdateInfo) (k : Jwk) (hk : i.updateKey =
 
 /-- recover: the next recovery commitment must not be the commitment of the signing key -/
 theorem recover_refuses_reused_key (i : RecoverInfo) (k : Jwk) (hk : i.recoveryKey = some k)
-    (h : Hashing.commitment H k.toJson i.code = some i.recoveryCommitment) : newRecoverRequest H i = none := by
-  unfold newRecoverRequest
+    (h : Hashing.commitment H k.toJson i.code = some i.recoveryCommitment) : newRecoverRequestCore H i = none := by
+  unfold newRecoverRequestCore
   split
   · rfl
   · split
@@ -100,8 +100,8 @@ theorem signer_rules (s : Signer) (h : signerOK (some s) = true) :
         exact ⟨hdrs, alg, rfl, ha, h.1, h.2⟩
       | _ => simp [ha] at h
 
-theorem update_refuses_bad_signer (i : UpdateInfo) (h : signerOK i.signer = false) : newUpdateRequest H i = none := by
-  unfold newUpdateRequest
+theorem update_refuses_bad_signer (i : UpdateInfo) (h : signerOK i.signer = false) : newUpdateRequestCore H i = none := by
+  unfold newUpdateRequestCore
   split
   · rfl
   · cases hs : i.signer with
@@ -111,8 +111,8 @@ theorem update_refuses_bad_signer (i : UpdateInfo) (h : signerOK i.signer = fals
       | none => rfl
       | some k => simp [hs] at h; simp [h]
 
-theorem deactivate_refuses_bad_signer (i : DeactivateInfo) (h : signerOK i.signer = false) : newDeactivateRequest i = none := by
-  unfold newDeactivateRequest
+theorem deactivate_refuses_bad_signer (i : DeactivateInfo) (h : signerOK i.signer = false) : newDeactivateRequestCore i = none := by
+  unfold newDeactivateRequestCore
   split
   · rfl
   · cases hs : i.signer with
@@ -692,7 +692,7 @@ theorem fresh_of_differs (k : Jwk) (c : Nat) (next : String) (halg : cfg.multiha
 
 /-- **a built update request is accepted**, given that the parser reads the signed data back -/
 theorem update_built_accepted (ok : HashOK H) (i : UpdateInfo) (req : Json) (k : Jwk)
-    (hb : newUpdateRequest H i = some req) (hk : i.updateKey = some k)
+    (hb : newUpdateRequestCore H i = some req) (hk : i.updateKey = some k)
     (halg : cfg.multihashAlgorithms = [i.code])
     (hdelta : validateDelta cfg orc (some (mkDelta i.updateCommitment i.patches)) = true)
     (hrv : multihashOK cfg i.revealValue = true)
@@ -705,7 +705,7 @@ theorem update_built_accepted (ok : HashOK H) (i : UpdateInfo) (req : Json) (k :
           some { key := some k, deltaHash := dh, anchorFrom := i.anchorFrom, anchorUntil := i.anchorUntil }) :
     ∃ p, parseUpdate H cfg orc req false = some p ∧ p.type = .update ∧ p.uniqueSuffix = i.didSuffix ∧
       p.delta = some (mkDelta i.updateCommitment i.patches) ∧ p.revealValue = i.revealValue := by
-  unfold newUpdateRequest at hb
+  unfold newUpdateRequestCore at hb
   by_cases h0 : i.didSuffix = "" ∨ i.revealValue = "" ∨ i.patches.isEmpty = true
   · rw [if_pos h0] at hb; cases hb
   · rw [if_neg h0] at hb
@@ -756,7 +756,7 @@ theorem update_built_accepted (ok : HashOK H) (i : UpdateInfo) (req : Json) (k :
     — the one condition the builder does not enforce itself (known finding D11) — that the next
     update and recovery commitments differ -/
 theorem recover_built_accepted (ok : HashOK H) (i : RecoverInfo) (req : Json) (k : Jwk) (patches : List Json)
-    (hb : newRecoverRequest H i = some req) (hk : i.recoveryKey = some k)
+    (hb : newRecoverRequestCore H i = some req) (hk : i.recoveryKey = some k)
     (hp : patchesOf i.opaqueDoc i.patches = some patches)
     (hdelta : validateDelta cfg orc (some (mkDelta i.updateCommitment patches)) = true)
     (hne : i.updateCommitment ≠ i.recoveryCommitment)
@@ -773,7 +773,7 @@ theorem recover_built_accepted (ok : HashOK H) (i : RecoverInfo) (req : Json) (k
                  anchorFrom := i.anchorFrom, anchorUntil := i.anchorUntil }) :
     ∃ p, parseRecover H cfg orc req false = some p ∧ p.type = .recover ∧ p.uniqueSuffix = i.didSuffix ∧
       p.delta = some (mkDelta i.updateCommitment patches) ∧ p.revealValue = i.revealValue ∧ p.anchorOrigin = i.anchorOrigin := by
-  unfold newRecoverRequest at hb
+  unfold newRecoverRequestCore at hb
   by_cases h0 : i.didSuffix = "" ∨ i.revealValue = ""
   · rw [if_pos h0] at hb; cases hb
   · rw [if_neg h0] at hb
@@ -824,7 +824,7 @@ theorem recover_built_accepted (ok : HashOK H) (i : RecoverInfo) (req : Json) (k
 
 /-- **a built deactivate request is accepted**, given that the parser reads the signed data back -/
 theorem deactivate_built_accepted (ok : HashOK H) (i : DeactivateInfo) (req : Json) (k : Jwk)
-    (hb : newDeactivateRequest i = some req) (hk : i.recoveryKey = some k)
+    (hb : newDeactivateRequestCore i = some req) (hk : i.recoveryKey = some k)
     (hrv : multihashOK cfg i.revealValue = true)
     (hreveal : ∃ c, Hashing.revealValue H k.toJson c = some i.revealValue)
     (htime : orc.anchorTimeOK i.anchorFrom (anchorUntil cfg i.anchorFrom i.anchorUntil) = true)
@@ -834,7 +834,7 @@ theorem deactivate_built_accepted (ok : HashOK H) (i : DeactivateInfo) (req : Js
           some { key := some k, didSuffix := i.didSuffix, anchorFrom := i.anchorFrom, anchorUntil := i.anchorUntil }) :
     ∃ p, parseDeactivate H cfg orc req false = some p ∧ p.type = .deactivate ∧ p.uniqueSuffix = i.didSuffix ∧
       p.revealValue = i.revealValue := by
-  unfold newDeactivateRequest at hb
+  unfold newDeactivateRequestCore at hb
   by_cases h0 : i.didSuffix = "" ∨ i.revealValue = ""
   · rw [if_pos h0] at hb; cases hb
   · rw [if_neg h0] at hb
@@ -872,7 +872,7 @@ open Sidetree.Framing in
     signer with an allowed key ⇒ accepted -/
 theorem update_built_accepted_unwindowed (ok : HashOK H) (i : UpdateInfo) (req : Json) (k : Jwk) (s : Signer)
     (hdrs : List (String × Json))
-    (hb : newUpdateRequest H i = some req) (hk : i.updateKey = some k) (hsg : i.signer = some s)
+    (hb : newUpdateRequestCore H i = some req) (hk : i.updateKey = some k) (hsg : i.signer = some s)
     (hw : i.anchorFrom = 0 ∧ i.anchorUntil = 0)
     (halg : cfg.multihashAlgorithms = [i.code])
     (hdelta : validateDelta cfg orc (some (mkDelta i.updateCommitment i.patches)) = true)
@@ -901,7 +901,7 @@ open Sidetree.Framing in
 /-- **deactivate, unconditional** -/
 theorem deactivate_built_accepted_unwindowed (ok : HashOK H) (i : DeactivateInfo) (req : Json) (k : Jwk) (s : Signer)
     (hdrs : List (String × Json))
-    (hb : newDeactivateRequest i = some req) (hk : i.recoveryKey = some k) (hsg : i.signer = some s)
+    (hb : newDeactivateRequestCore i = some req) (hk : i.recoveryKey = some k) (hsg : i.signer = some s)
     (hw : i.anchorFrom = 0 ∧ i.anchorUntil = 0)
     (hrv : multihashOK cfg i.revealValue = true)
     (hreveal : ∃ c, Hashing.revealValue H k.toJson c = some i.revealValue)
@@ -922,7 +922,7 @@ open Sidetree.Framing in
     the condition `NewRecoverRequest` does not enforce, D11) -/
 theorem recover_built_accepted_unwindowed (ok : HashOK H) (i : RecoverInfo) (req : Json) (k : Jwk) (s : Signer)
     (hdrs : List (String × Json)) (patches : List Json) (ao : Option String)
-    (hb : newRecoverRequest H i = some req) (hk : i.recoveryKey = some k) (hsg : i.signer = some s)
+    (hb : newRecoverRequestCore H i = some req) (hk : i.recoveryKey = some k) (hsg : i.signer = some s)
     (hw : i.anchorFrom = 0 ∧ i.anchorUntil = 0) (hao : i.anchorOrigin = ao.map Json.str)
     (hp : patchesOf i.opaqueDoc i.patches = some patches)
     (halg : cfg.multihashAlgorithms = [i.code])
@@ -941,7 +941,7 @@ theorem recover_built_accepted_unwindowed (ok : HashOK H) (i : RecoverInfo) (req
   obtain ⟨hf, hu⟩ := hw
   -- the builder's own key-reuse check gives the parser's
   have hfresh : commitmentFresh H k i.recoveryCommitment = true := by
-    unfold newRecoverRequest at hb
+    unfold newRecoverRequestCore at hb
     by_cases h0 : i.didSuffix = "" ∨ i.revealValue = ""
     · rw [if_pos h0] at hb; cases hb
     · rw [if_neg h0] at hb
@@ -968,7 +968,7 @@ theorem recover_built_accepted_unwindowed (ok : HashOK H) (i : RecoverInfo) (req
     | nil => simp [hpp] at hd
     | cons a as => simp only [hpp, Bool.and_eq_true] at hd; exact hd.1.2
   have hfreshU : keyFresh H (some k) i.updateCommitment = true := by
-    unfold newRecoverRequest at hb
+    unfold newRecoverRequestCore at hb
     by_cases h0 : i.didSuffix = "" ∨ i.revealValue = ""
     · rw [if_pos h0] at hb; cases hb
     · rw [if_neg h0] at hb
@@ -1002,5 +1002,44 @@ theorem recover_built_accepted_unwindowed (ok : HashOK H) (i : RecoverInfo) (req
     simp only [multihashOK, halg, Bool.and_eq_true, Bool.not_eq_true', decide_eq_false_iff_not, Nat.not_lt]
     exact ⟨hl, hc⟩
   exact recover_reads_back H cfg k dh i.recoveryCommitment ao s hdrs compact hsm fit hkey hmok hrc hfresh
+
+/-! ### the builders proper
+
+`NewUpdateRequest`, `NewRecoverRequest` and `NewDeactivateRequest` first refuse an anchoring window
+that JCS cannot write exactly (D41) and then do what the theorems above speak about: each of those
+theorems applies to the builder itself through the equivalences below. -/
+
+theorem newUpdateRequest_some (i : UpdateInfo) (req : Json) :
+    newUpdateRequest H i = some req ↔
+      (windowExact i.anchorFrom i.anchorUntil = true ∧ newUpdateRequestCore H i = some req) := by
+  unfold newUpdateRequest
+  cases windowExact i.anchorFrom i.anchorUntil <;> simp
+
+theorem newRecoverRequest_some (i : RecoverInfo) (req : Json) :
+    newRecoverRequest H i = some req ↔
+      (windowExact i.anchorFrom i.anchorUntil = true ∧ newRecoverRequestCore H i = some req) := by
+  unfold newRecoverRequest
+  cases windowExact i.anchorFrom i.anchorUntil <;> simp
+
+theorem newDeactivateRequest_some (i : DeactivateInfo) (req : Json) :
+    newDeactivateRequest i = some req ↔
+      (windowExact i.anchorFrom i.anchorUntil = true ∧ newDeactivateRequestCore i = some req) := by
+  unfold newDeactivateRequest
+  cases windowExact i.anchorFrom i.anchorUntil <;> simp
+
+/-- a bound beyond 2^53 is refused by all three builders: it would be signed as another number -/
+theorem window_beyond_exact_refused (iu : UpdateInfo) (ir : RecoverInfo) (id' : DeactivateInfo)
+    (hu : windowExact iu.anchorFrom iu.anchorUntil = false) (hr : windowExact ir.anchorFrom ir.anchorUntil = false)
+    (hd : windowExact id'.anchorFrom id'.anchorUntil = false) :
+    newUpdateRequest H iu = none ∧ newRecoverRequest H ir = none ∧ newDeactivateRequest id' = none := by
+  simp [newUpdateRequest, newRecoverRequest, newDeactivateRequest, hu, hr, hd]
+
+theorem windowExact_iff (af au : Int) :
+    windowExact af au = true ↔ (-(2 : Int) ^ 53 ≤ af ∧ af ≤ 2 ^ 53 ∧ -(2 : Int) ^ 53 ≤ au ∧ au ≤ 2 ^ 53) := by
+  simp [windowExact]
+
+/-- no window set: always exact, so the unconditional theorems apply to the builders themselves -/
+example : windowExact 0 0 = true := by decide
+example : windowExact 9223372036854775807 0 = false := by decide
 
 end Sidetree.Props.C08
